@@ -1543,6 +1543,15 @@ void Image::mask_blit(const Image& source, ssize_t x, ssize_t y, ssize_t w,
 
   clamp_blit_dimensions(*this, source, &x, &y, &w, &h, &sx, &sy);
 
+  // The mask is indexed with source coordinates (sx + xx, sy + yy), so it must
+  // also cover the clamped area at its position in source-space; otherwise
+  // mask.read_pixel would throw out_of_range after part of the area was copied
+  if ((w > 0) && (h > 0) &&
+      ((mask.get_width() < static_cast<size_t>(sx + w)) ||
+          (mask.get_height() < static_cast<size_t>(sy + h)))) {
+    throw runtime_error("mask is too small to cover copied area");
+  }
+
   for (ssize_t yy = 0; yy < h; yy++) {
     for (ssize_t xx = 0; xx < w; xx++) {
       uint64_t r, g, b, a;
